@@ -480,7 +480,14 @@ class BoundedExecutor:
         # Submit the task to the underlying executor.
         # Pass the current context to ensure child threads persist the
         # parent thread's context.
-        future = ExecutorFuture(self._executor.submit(task, get_context()))
+        try:
+            future = ExecutorFuture(self._executor.submit(task, get_context()))
+        except BaseException:
+            # The task was never handed a future that could release the
+            # semaphore (a rejected submission, or an interrupt escaping the
+            # NonThreadedExecutor), so give the permit back here.
+            release_callback()
+            raise
         # Add the Semaphore.release() callback to the future such that
         # it is invoked once the future completes.
         future.add_done_callback(release_callback)
